@@ -149,11 +149,12 @@ func VerifCore_Prepare() {
 	if sym.Bool("echo-own-prepare") {
 		e.echo(prepareIdx)
 	}
+	proofHeld := false
 	for _, idx := range []int{0, 1, verifByzIdx} {
 		if e.phase() != PREPARE_PHASE {
 			break
 		}
-		k := sym.Choice("prepare-vote", 4)
+		k := sym.Choice("prepare-vote", 5)
 		var v *ECChain
 		switch k {
 		case 0:
@@ -162,11 +163,23 @@ func VerifCore_Prepare() {
 			v = proposal
 		case 2:
 			v = VerifX(1)
-		default:
+		case 3:
 			v = &ECChain{}
+		default:
+			// signs PREPARE for the proposal, but the message does not arrive
+			e.castVote(idx, 0, PREPARE_PHASE, proposal)
+			continue
 		}
 		if m := e.message(idx, 0, PREPARE_PHASE, v, 0, 0); m != nil {
 			e.deliver(m)
+		}
+	}
+	// a peer that has seen the PREPARE quorum may already have sent its COMMIT,
+	// which carries the proof of that quorum
+	if e.phase() == PREPARE_PHASE && sym.Bool("commit-with-proof-arrives") {
+		if m := e.message(sym.Choice("commit-sender", 2), 0, COMMIT_PHASE, proposal, 3, 0); m != nil && e.deliver(m) {
+			proofHeld = true
+			sym.Cover("proof-held")
 		}
 	}
 	if e.phase() == PREPARE_PHASE {
@@ -188,6 +201,7 @@ func VerifCore_Prepare() {
 	if mb.Payload.Value.IsZero() {
 		sym.Cover("commit-bottom")
 		sym.Assert(!strong, "R7: never commits bottom while holding a strong PREPARE quorum for its proposal")
+		sym.Assert(!proofHeld, "R7: never commits bottom while holding proof of a strong PREPARE quorum for its proposal")
 		if !timedOut {
 			sym.Cover("commit-bottom-early")
 			// impossible: even if every member that has not voted yet voted for P
@@ -196,7 +210,7 @@ func VerifCore_Prepare() {
 	} else {
 		sym.Cover("commit-proposal")
 		sym.Assert(mb.Payload.Value.Eq(proposal), "commits its proposal or bottom")
-		sym.Assert(strong, "V3/R8: commits a value only on a strong PREPARE quorum")
+		sym.Assert(strong || proofHeld, "V3/R8: commits a value only on a strong PREPARE quorum (or proof of one)")
 		sym.Assert(mb.Justification != nil, "COMMIT for a value carries a justification")
 	}
 }
@@ -458,11 +472,20 @@ func VerifCore_LateRoundEntry() {
 		e.castVote(idx, 0, PREPARE_PHASE, v)
 	}
 	jk := 1 + sym.Choice("converge-justified-by-commit-bottom", 2)
-	if m := e.message(0, 1, CONVERGE_PHASE, v, jk, 0); m != nil {
+	convSender := 0
+	if sym.Bool("converge-from-byzantine") {
+		convSender = verifByzIdx
+	}
+	if m := e.message(convSender, 1, CONVERGE_PHASE, v, jk, 0); m != nil {
 		e.deliver(m)
 	}
+	// the PREPAREs that pull the participant ahead need not be for the CONVERGE value
+	vp := v
+	if sym.Bool("prepares-for-the-input") {
+		vp = input
+	}
 	for _, idx := range []int{0, 1} {
-		if m := e.message(idx, 1, PREPARE_PHASE, v, jk, 0); m != nil {
+		if m := e.message(idx, 1, PREPARE_PHASE, vp, 2, 0); m != nil {
 			e.deliver(m)
 		}
 	}
@@ -793,4 +816,82 @@ func VerifCore_WaitingAlarms() {
 		}
 	}
 	sym.Assert(steps >= 2, "keeps re-broadcasting while it waits")
+}
+
+// VerifCore_PrepareBacklog (R7): the participant lags: while it is still in
+// QUALITY, round-0 PREPAREs of its peers arrive (for what will be its
+// proposal, or for bottom; the Byzantine member may sign for the proposal and
+// send bottom) and possibly a peer's COMMIT for the proposal carrying proof of
+// a strong PREPARE quorum.  Then QUALITY and PREPARE time out.  It never
+// commits bottom while it holds a strong PREPARE quorum for its proposal or
+// proof of one; it commits the proposal only with such a quorum or proof.
+func VerifCore_PrepareBacklog() {
+	input := VerifX(2)
+	e := newVerifEnv(input, true)
+	e.start()
+	proposal := VerifX(1) // no QUALITY votes arrive: the proposal after the timeout is the base
+	for _, idx := range []int{0, 1, verifByzIdx} {
+		switch sym.Choice("prepare-vote", 4) {
+		case 1: // for the proposal, delivered
+			if m := e.message(idx, 0, PREPARE_PHASE, proposal, 0, 0); m != nil {
+				e.deliver(m)
+			}
+		case 2: // signs for the proposal; not delivered (the Byzantine member sends bottom instead)
+			e.castVote(idx, 0, PREPARE_PHASE, proposal)
+			if idx == verifByzIdx {
+				if m := e.message(idx, 0, PREPARE_PHASE, &ECChain{}, 0, 0); m != nil {
+					e.deliver(m)
+				}
+			}
+		case 3: // for bottom, delivered
+			if m := e.message(idx, 0, PREPARE_PHASE, &ECChain{}, 0, 0); m != nil {
+				e.deliver(m)
+			}
+		}
+	}
+	proofHeld := false
+	if sym.Bool("commit-with-proof-arrives") {
+		if m := e.message(sym.Choice("commit-sender", 2), 0, COMMIT_PHASE, proposal, 3, 0); m != nil && e.deliver(m) {
+			proofHeld = true
+			sym.Cover("proof-held")
+		}
+	}
+	sym.Assume(e.phase() == QUALITY_PHASE)
+	e.fireAlarm(0) // QUALITY times out
+	sym.Assume(e.phase() == PREPARE_PHASE || e.phase() == COMMIT_PHASE)
+	if e.phase() == PREPARE_PHASE {
+		sym.Assume(e.lastBroadcast().Payload.Value.Eq(proposal))
+		if sym.Bool("echo-own-prepare") {
+			e.echo(len(e.h.broadcasts) - 1)
+		}
+	}
+	if e.phase() == PREPARE_PHASE {
+		e.fireAlarm(0) // PREPARE times out
+	}
+	forP, all := e.tally(0, PREPARE_PHASE, proposal)
+	strong := IsStrongQuorum(forP, e.total())
+	if e.phase() == PREPARE_PHASE {
+		sym.Cover("waits")
+		sym.Assert(!proofHeld && !strong && !IsStrongQuorum(all, e.total()), "T2: PREPARE ends at its timeout with proof, a quorum, or a strong quorum of senders")
+		return
+	}
+	var commit *MessageBuilder
+	for _, mb := range e.h.broadcasts {
+		if mb.Payload.Phase == COMMIT_PHASE && mb.Payload.Round == 0 {
+			commit = mb
+		}
+	}
+	sym.Assert(commit != nil, "emits COMMIT for round 0")
+	if commit == nil {
+		return
+	}
+	if commit.Payload.Value.IsZero() {
+		sym.Cover("commit-bottom")
+		sym.Assert(!strong, "R7: never commits bottom while holding a strong PREPARE quorum for its proposal")
+		sym.Assert(!proofHeld, "R7: never commits bottom while holding proof of a strong PREPARE quorum for its proposal")
+	} else {
+		sym.Cover("commit-proposal")
+		sym.Assert(commit.Payload.Value.Eq(proposal) && commit.Justification != nil, "commits its proposal with a justification")
+		sym.Assert(strong || proofHeld, "V3/R8: commits a value only on a strong PREPARE quorum or proof of one")
+	}
 }
